@@ -613,7 +613,12 @@ def mon_c11(tr):
                 first = [h for h in live_holders(kb)][:1]
                 if pend and first and (first[0]["lockid"] == rq["lockid"] or pend[0] is first[0] or True):
                     mine = [rp for rp in st["replies"] if rp["req"] == rq["req"]]
-                    target_is_pending = get_locked(kb, rq["lockid"]) is not None and get_locked(kb, rq["lockid"])["ack"] != 255
+                    # a lock request carrying the show flag addresses the key's current holder whatever LockId it names
+                    # (db.go: command.LockId = currentLock.command.LockId); without the update flag it is a pure probe
+                    eff = rq["lockid"]
+                    if rq["islock"] and rq["flag"] & 1 and kb["locked"] > 0 and kb.get("cur") and not kb["cur"].get("freed"):
+                        eff = kb["cur"]["lockid"]
+                    target_is_pending = get_locked(kb, eff) is not None and get_locked(kb, eff)["ack"] != 255
                     if target_is_pending and not (rq["islock"] and rq["flag"] & 1 and not rq["flag"] & 2) and not (not rq["islock"] and False):
                         if mine and mine[0]["result"] != R["ACKW"] and not (rq["islock"] and rq["flag"] & 8 and rq["timeout"] == 0 and mine[0]["result"] == R["TIMEOUT"]):
                             out.append(("ack:pending-lockid-not-answered-ack-waiting", "request %d names a LockId whose acknowledgement is pending but was answered %d" % (rq["req"], mine[0]["result"]), i))
